@@ -11,7 +11,7 @@ RULE = ("one seeded history of 3-60 create/set/get/get-default/list calls over 7
         "non-trivial = history with at least one overwrite, one lookup miss and growth past the 8 pre-allocated entries or past the "
         "parsed length; distinct = distinct (constructor, op-kind sequence class, #entries, #sections, overwrite/miss/growth flags)")
 
-SECS = ["s1", "s2", "Sec 3", "x", "S", "s", "s1x", "_oNne_"]        # incl. names that differ only in case / are prefixes of each other
+SECS = ["s1", "s2", "Sec 3", "x", "S", "s", "s1x", "_oNne_", "[x", "x]", "[", "]"]      # a bracket on ONE side only belongs to the name        # incl. names that differ only in case / are prefixes of each other
 KEYS = ["a", "b", "key c", "d", "E", "A", "ab", "_nooD_"]       # the last one: same djb2 hash as the reserved placeholder text, but another text
 NOOBJ = 99
 LONG = ["L" * 300, "x" * 1100 + " y", "seg " * 600, "k" * 2500]
@@ -21,6 +21,8 @@ VALS = LONG + ["\"quoted text\"", "\"\"", "\"", "'single'", "\"a\" and \"b\"", "
 def spell(rng, s):
     if s is None:
         return rng.pick([None, "", None, "", "[]"])      # brackets around the empty name: still the empty name
+    if "[" in s or "]" in s:
+        return s          # a name that itself contains a bracket is only used literally (what "[[x]" or "[]]" denote is not defined)
     return rng.pick([s, s, "[%s]" % s])
 
 
